@@ -300,8 +300,11 @@ class Fn:
         return "|".join(sorted(str(d.key()) for d in defs))
 
     def conds_all(self, node: ast.AST) -> list[tuple[ast.expr, bool]]:
-        """Conditions that hold at `node`: those of core.cfg (dropped on re-binding) plus the ones that were dropped although every
-        name they mention still denotes the value it had when the condition was tested (e.g. after `m = cast(T, m)`)."""
+        """*Control* conditions of `node`: the tests (with polarity) whose outcome decides whether `node` is executed.  Those of
+        core.cfg (which drops a condition as a *fact* once something it mentions is re-bound or changed in place), plus the dropped
+        ones whose names still denote the object they denoted when the test was made (after `m = cast(T, m)`, or after the tested
+        container was changed: `if e in acc: continue; acc.add(e); other.discard(p)` - the discard still depends on the test).
+        A dropped condition over a name that was re-bound to something else is not reported (its text would be misleading)."""
         from .common import conds as conds_at
 
         base = conds_at(self.fi, node)
@@ -315,14 +318,7 @@ class Fn:
                 continue
             ok = True
             for n in ast.walk(e):
-                if isinstance(n, ast.Attribute) and isinstance(n.ctx, ast.Load):
-                    txt = ast.unparse(n)
-                    if any(isinstance(x, ast.Attribute) and isinstance(x.ctx, ast.Store) and ast.unparse(x) == txt for x in ast.walk(self.fi.node)):
-                        ok = False
                 if isinstance(n, ast.Name) and isinstance(n.ctx, ast.Load):
-                    if n.id in self.mutated:
-                        ok = False
-                        break
                     if self._scope_def(n.id, n) is not None:
                         continue
                     a = self.name_canon(n.id, self.reaching(n.id, n), stmt_of(n))
